@@ -62,7 +62,7 @@ def _mk(family, chunked):
     return ob
 
 
-for _f in ('http', 'json', 'soap11', 'xml', 'msgpackrpc'):
+for _f in ('http', 'httpout', 'json', 'soap11', 'xml', 'msgpackrpc'):
     for _ch in (True, False):
         _mk(_f, _ch)
 
@@ -124,6 +124,20 @@ def _mk_limit(family):
         from .pipeline import requests_for
         h = Harness(c, family)
         method, path, qs, body, ctype = requests_for(family)['valid'][:5]
+        # the forms in which the transport accepts the same request: SOAP with attachments (multipart/related),
+        # HttpRpc as a POSTed form (url-encoded, multipart/form-data)
+        form = c.choose({'soap11': ['plain', 'swa', 'swa_with_attachment'], 'soap12': ['plain', 'swa'],
+                         'http': ['urlencoded', 'multipart_form']}.get(family, ['plain']), 'request_form')
+        if form.startswith('swa'):
+            att = b'--B\r\nContent-Type: application/octet-stream\r\nContent-ID: <att1>\r\n\r\nDATA\r\n' if \
+                form == 'swa_with_attachment' else b''
+            body = b'--B\r\nContent-Type: text/xml; charset=utf-8\r\nContent-ID: <root>\r\n\r\n' + body + b'\r\n' + att + b'--B--\r\n'
+            ctype = 'multipart/related; boundary="B"; type="text/xml"; start="<root>"'
+        elif form == 'urlencoded':
+            method, qs, body, ctype = 'POST', '', b'i=5', 'application/x-www-form-urlencoded'
+        elif form == 'multipart_form':
+            method, qs, ctype = 'POST', '', 'multipart/form-data; boundary=B'
+            body = b'--B\r\nContent-Disposition: form-data; name="i"\r\n\r\n5\r\n--B--\r\n'
         limit = c.choose([len(body) - 1, len(body), 4], 'max_content_length')
         declared = c.choose(['exact', 'absent', 'larger_than_limit', 'smaller_than_body'], 'declared_length')
         h.wsgi.max_content_length = limit
@@ -131,6 +145,7 @@ def _mk_limit(family):
         inp = CountingInput(c, body)
         env = h.env('valid')
         env['wsgi.input'] = inp
+        env.update(REQUEST_METHOD=method, QUERY_STRING=qs, CONTENT_TYPE=ctype, CONTENT_LENGTH=str(len(body)))
         if declared == 'absent':
             env.pop('CONTENT_LENGTH', None)
         elif declared == 'larger_than_limit':
@@ -154,7 +169,9 @@ def _mk_limit(family):
     return ob
 
 
-for _f in ('json', 'soap11'):
+# not 'http': HttpRpc reads a request body only for POSTed forms, which it parses with werkzeug -- not installed in this
+# sandbox (an optional dependency of the package), so that path cannot be executed here
+for _f in ('json', 'soap11', 'soap12', 'xml', 'yaml', 'msgpack', 'msgpackrpc'):
     _mk_limit(_f)
 
 
@@ -238,3 +255,56 @@ def limits_constructor(c):
     want_b = B if how in ('keywords', 'positional', 'only_block') else 8 * 1024
     c.check('max_content_length_as_given', w.max_content_length == want_l, detail=repr(w.max_content_length))
     c.check('block_length_as_given', w.block_length == want_b, detail=repr(w.block_length))
+
+
+HEADER_TEXTS = [u'plain', u'caf\xe9', u'中文', u'', u'a b; c="d"', u'x' * 300, u'\xff\xfe']
+
+
+@obligation('C13.out_header_values', targets=['spyne.protocol.http:_header_to_bytes', 'spyne.protocol.http:HttpRpc.serialize',
+                                              'spyne.server.wsgi:WsgiApplication.handle_rpc'],
+            bounded="a declared HTTP out header of three members (text, integer, date-time) x 7 text values (ASCII, "
+                    "Latin-1, CJK, empty, separators and quotes, 300 characters, high Latin-1)",
+            desc="response headers that carry values set by the method (HttpRpc out headers) are handed to "
+                 "start_response as str names and str values, whatever text the method put there",
+            assumptions=ASSUME)
+def out_header_values(c):
+    import datetime as dt
+    import io
+    from spyne import Application, ServiceBase, rpc
+    from spyne.model.complex import ComplexModel
+    from spyne.model.primitive import DateTime, Integer, Unicode
+    from spyne.protocol.http import HttpRpc
+    from spyne.server.wsgi import WsgiApplication
+    n = c.choose(list(range(len(HEADER_TEXTS))), 'header_text')
+
+    class RespHeader(ComplexModel):
+        _type_info = [('X-Owner', Unicode), ('X-Count', Integer), ('Expires', DateTime)]
+
+    class HSvc(ServiceBase):
+        __out_header__ = RespHeader
+
+        @rpc(Integer, _returns=Unicode)
+        def f(ctx, i):
+            ctx.out_header = RespHeader(**{'X-Owner': HEADER_TEXTS[i], 'X-Count': i, 'Expires': dt.datetime(2020, 1, 1, 0, 0, 0)})
+            return u'ok'
+    app = Application([HSvc], 'verif.tns', in_protocol=HttpRpc(), out_protocol=HttpRpc())
+    env = {'REQUEST_METHOD': 'GET', 'PATH_INFO': '/f', 'QUERY_STRING': 'i=%d' % n, 'SERVER_NAME': 'h', 'SERVER_PORT': '80',
+           'wsgi.url_scheme': 'http', 'wsgi.input': io.BytesIO(b''), 'CONTENT_LENGTH': '0'}
+    seen = []
+
+    def sr(status, headers, exc=None):
+        seen.append((status, list(headers)))
+    sr._pyvc_native = True
+    out = c.run(WsgiApplication(app), env, sr)
+    c.check('callable_returns', out.returned, detail=repr(out))
+    if out.returned:
+        c.run(lambda: list(out.value))
+    c.check('start_response_exactly_once', len(seen) == 1, detail=len(seen))
+    if len(seen) != 1:
+        return
+    status, headers = seen[0]
+    c.check('status_is_str_status_line', isinstance(status, str) and bool(STATUS_RE.match(status)), detail=repr(status))
+    c.check('headers_are_str_pairs', all(isinstance(p, tuple) and len(p) == 2 and type(p[0]) is str and type(p[1]) is str
+                                         for p in headers), detail=repr(headers)[:400])
+    if status.startswith('200'):
+        c.check('header_carries_the_text', dict(headers).get('X-Owner') == HEADER_TEXTS[n], detail=repr(dict(headers).get('X-Owner'))[:80])
